@@ -315,8 +315,25 @@ def _run_one(args: tuple[str, dict]) -> tuple[dict, JobResult | None, str | None
         r = mod.run_job(job)
         r.counters["job_wall_s"] = time.perf_counter() - t0
         return job, r, None
-    except BaseException:
-        return job, None, traceback.format_exc()
+    except BaseException as exc:
+        tb_text = traceback.format_exc()
+        # A harness fault is INTERNAL (exit 3, never a verdict).  But an exception that was RAISED BY LIBRARY CODE (innermost frame inside
+        # the easynetwork package) and that no harness expected is the library failing an operation the harness drives as a healthy
+        # one: it is reported as a violation (key crash/<exception type>) with the traceback, replayable by re-running the job.
+        try:
+            frames = traceback.extract_tb(exc.__traceback__)
+            inner = frames[-1].filename.replace(os.sep, "/") if frames else ""
+            src = os.environ.get("VERIF_SRC", "/repo/src").rstrip("/")
+            if isinstance(exc, Exception) and (inner.startswith(src + "/easynetwork/") or "/easynetwork/" in inner and "/verif/" not in inner):
+                r = JobResult()
+                r.evaluations = 1
+                r.outcome("VIOLATION:crash")
+                r.violations.append(Violation(f"crash/{type(exc).__name__}", f"job {job!r}: library code raised {type(exc).__name__}: {exc} (uncaught by the harness)\n" + tb_text[-1500:],
+                                              {"crash_job": job}))
+                return job, r, None
+        except Exception:  # noqa: BLE001 - fall through to INTERNAL
+            pass
+        return job, None, tb_text
 
 
 def run_jobs(modname: str, jobs: list[dict], nproc: int) -> tuple[JobResult, list[str]]:
